@@ -65,8 +65,9 @@ macro_rules! with_stubs {
 }
 
 /// Native counterpart of the stub sets for replaying allocator-allowance counterexamples on the real build:
-/// a `#[global_allocator]` wrapper around the system allocator that refuses (returns null -> the process aborts with
-/// "memory allocation of N bytes failed") any request above the allowance the harness announced.
+/// a `#[global_allocator]` wrapper around the system allocator that aborts the process (SIGABRT, no allocation on the
+/// way: returning null deadlocked the test harness inside its allocation-failure reporting) on any request above the
+/// allowance the harness announced.
 #[cfg(feature = "pb_alloc")]
 pub mod native {
 	extern crate std;
@@ -78,15 +79,15 @@ pub mod native {
 	pub struct Checking;
 	unsafe impl GlobalAlloc for Checking {
 		unsafe fn alloc(&self, l: Layout) -> *mut u8 {
-			if l.size() > ALLOWANCE.load(Ordering::SeqCst) { clear_allowance(); return core::ptr::null_mut() }
+			if l.size() > ALLOWANCE.load(Ordering::SeqCst) { std::process::abort() }
 			std::alloc::System.alloc(l)
 		}
 		unsafe fn alloc_zeroed(&self, l: Layout) -> *mut u8 {
-			if l.size() > ALLOWANCE.load(Ordering::SeqCst) { clear_allowance(); return core::ptr::null_mut() }
+			if l.size() > ALLOWANCE.load(Ordering::SeqCst) { std::process::abort() }
 			std::alloc::System.alloc_zeroed(l)
 		}
 		unsafe fn realloc(&self, p: *mut u8, l: Layout, n: usize) -> *mut u8 {
-			if n > ALLOWANCE.load(Ordering::SeqCst) { clear_allowance(); return core::ptr::null_mut() }
+			if n > ALLOWANCE.load(Ordering::SeqCst) { std::process::abort() }
 			std::alloc::System.realloc(p, l, n)
 		}
 		unsafe fn dealloc(&self, p: *mut u8, l: Layout) { std::alloc::System.dealloc(p, l) }
